@@ -9,6 +9,7 @@
   figures is covered by the black-box oracle and the render model (see DESIGN.md).
 -/
 import Distill.Proofs.Convert
+import Distill.Props.FiltersProps
 namespace Distill.C02
 open Distill
 
